@@ -30,7 +30,7 @@ META = {
 
 
 META['explanation'] += ' Rounds 4-5: ' + "R2 escapes decided by constant propagation (decoding the output once gives the input back), pop on a two-element stack. R7 (= C18.R2 restricted) XML writer state is per instance. R8 (= C11.R4) the ISA written back announces the writer's separators."
-META['technique'] += '; conditional constant propagation over the CFG on finite, complete input domains (DESIGN.md 10.4.1)'
+META['technique'] = META.get('technique', 'static analysis: AST/CFG rules over /repo source + shipped XML data') + '; conditional constant propagation over the CFG on finite, complete input domains (DESIGN.md 10.4.1)'
 
 INFO = {'_get_loop_info': 'loop', '_get_seg_info': 'seg', '_get_comp_info': 'comp', '_get_ele_info': 'ele', '_get_subele_info': 'subele'}
 
